@@ -20,6 +20,7 @@ import numpy as np
 from fractions import Fraction
 from .. import common
 from ..common import enc, ask, call
+from ..translator import py2lean
 from . import c04
 
 LEVEL = "proof"
@@ -34,7 +35,9 @@ ASSUMPTIONS = [
     "the caller passes one (n,2) diagram or an iterable of (n,2) diagrams (what the docstring allows); other nestings are outside the model",
     "weights and kernel act elementwise; float rounding is outside the theorems: every law that compares two images is decided to 1e-12 x total absolute weight; a difference in the last bits only between two call styles / schedules is reported as a correspondence break without a failing input",
 ]
-TRUSTED = ["joblib/loky process pool as an ordered map"]
+TRUSTED = ["joblib/loky process pool as an ordered map", py2lean.trusted_note("image")]
+# source translator (DESIGN.md 3.2): `_transform`, `PersistenceImager.transform`, `fit_transform` are re-translated on every run
+PROP_FILES = ["PersimVerif/Props/C11.lean"] + py2lean.prop_files("image")
 TOL = 1e-12
 # theorems that carry a clause of the property (of 24 in Props/C11.lean); not listed: `rfl` restatements and modelled contracts
 # (skew_consistency, n_jobs_irrelevant, transform_empty), helpers (pixel_matZip_add, ensureIterable_dgm/_coll, effKernel_of_zeroCov,
@@ -511,7 +514,13 @@ def schedules(ctx):
             pass
 
 
+def pre_build(ctx):
+    """source translator: regenerate Generated/SrcImage.lean from PERSIM_ROOT's source"""
+    py2lean.pre_build(ctx, ("image",))
+
+
 def run(ctx):
+    py2lean.report_broken(ctx, PROP_FILES)
     ctx.extra["core_theorems"] = CORE_THEOREMS
     ctx.extra["anchored_digest"] = {"images.transform/_ensure_iterable/_transform": common.source_digest(
         "persim/images.py", ["_transform", "transform", "_ensure_iterable", "fit_transform"])}
@@ -591,3 +600,4 @@ MANIFEST = {
             "helpers / mesh attributes are read for the correspondence only.",
     "technique": "Lean 4 theorems over a hand-written model + exact differential correspondence + metamorphic tests on the real code",
 }
+MANIFEST["note"] += " " + py2lean.manifest_note("image")
